@@ -4,12 +4,19 @@ mod c34;
 mod c39;
 mod c40;
 mod corpus;
+mod paxos;
 mod util;
 
 /// C40 (primary): Raft.
 #[test]
 fn c40_raft() {
     c40::raft();
+}
+
+/// C40 (primary): Paxos (production embedded codegen under a harness scheduler; see paxos.rs for why).
+#[test]
+fn c40_paxos() {
+    paxos::run();
 }
 
 /// Sizing probe for the bounded-exhaustive Raft scenario (not registered).
